@@ -274,4 +274,26 @@ def r5_activation_table(ctx):
             r.undecided("const/" + pred, "%s tests %s: not decided" % (pred, got))
 
 
+    # the predicate itself: on mainnet a TIP is active AT its activation height (height >= activation), not one block later
+    tb = prog.body("melstf::state::UnsealedState::tip_condition")
+    if tb is None:
+        r.undecided("condition/at-activation", "tip_condition not found")
+    else:
+        dep = [(bi, q.novers(mir.strip(e))) for bi, _, e in q.ret_assignments(tb) if "$2" in sig(q.novers(e))]
+        GOOD = {"PartialOrd::ge($1.height, $2)", "PartialOrd::le($2, $1.height)", "!PartialOrd::lt($1.height, $2)", "!PartialOrd::gt($2, $1.height)",
+                "($1.height.0 >= $2.0)", "($2.0 <= $1.height.0)"}
+        LATE = {"PartialOrd::gt($1.height, $2)", "PartialOrd::lt($2, $1.height)", "!PartialOrd::le($1.height, $2)", "!PartialOrd::ge($2, $1.height)",
+                "($1.height.0 > $2.0)", "($2.0 < $1.height.0)"}
+        EARLY_OR_INVERTED = {"PartialOrd::lt($1.height, $2)", "PartialOrd::le($1.height, $2)", "PartialOrd::gt($2, $1.height)", "PartialOrd::ge($2, $1.height)"}
+        sg = sorted({sig(e) for _, e in dep})
+        if len(sg) == 1 and sg[0] in GOOD:
+            r.ok("condition/at-activation", "tip_condition: height >= activation")
+        elif len(sg) == 1 and sg[0] in LATE:
+            r.violation("condition/at-activation", "tip_condition answers %s: the block AT the activation height is still judged by the old rules" % sg[0], tb.where(dep[0][0]))
+        elif len(sg) == 1 and sg[0] in EARLY_OR_INVERTED:
+            r.violation("condition/at-activation", "tip_condition answers %s: the TIP is active before its height and inactive after it" % sg[0], tb.where(dep[0][0]))
+        else:
+            r.undecided("condition/at-activation", "tip_condition's activation-dependent answer is %s: not decided" % sg)
+
+
 RULES = [r1_header_gate, r2_result_provenance, r3_to_block, r4_action_committed, r5_activation_table, shared]
